@@ -494,7 +494,7 @@ class StoreWorld(WorldBase):
         h = self._pick_bus(ch, buses)
         fmt = ch.choice(['zip_pickle', 'zip_pickle', self.config['fmt']])
         return {'op': 'export', 'h': h, 'fmt': fmt, 'fid': max(self.files) + 1, 'out': self.next_h,
-                'mp': ch.choice([None, 1, 2]), 'cform': ch.choice(['map', 'map', 'default', 'bare', 'default_noindex'])}
+                'mp': ch.choice([None, 1, 2]), 'cform': ch.choice(['map', 'map', 'default', 'bare', 'default_noindex']), 'noenc': ch.chance(0.2)}
 
     def gen_reopen(self, ch, buses, its):
         fid = ch.choice(sorted(self.files))
@@ -1185,6 +1185,25 @@ class StoreWorld(WorldBase):
             else:
                 getattr(bus, 'to_' + fmt)(nf.path, config=cfg)
             return [], None
+        if self.config.get('int_labels') and op.get('noenc') and self._stale_kind(e) is None:
+            # labels that are not strings, exported without a label encoder: refused, or else the reopened store has the same labels
+            plain = sf.StoreConfig(index_depth=1, columns_depth=1) if fmt != 'zip_pickle' else None
+            path2 = nf.path + '.noenc' + EXT[fmt]
+            st, r = call(lambda: getattr(bus, 'to_' + fmt)(path2) if plain is None else getattr(bus, 'to_' + fmt)(path2, config=plain))
+            e.extra['loaded'] = self._loaded(e, op)
+            if st == 'ok':
+                st2, labs2 = call(lambda: list((sf.Bus.from_zip_pickle(path2) if plain is None else getattr(sf.Bus, 'from_' + fmt)(path2, config=plain)).index))
+                if os.path.exists(path2):
+                    os.remove(path2)
+                if st2 == 'raise' or [type(x).__name__ for x in labs2] != [type(x).__name__ for x in labs] or norm_list(labs2) != norm_list(labs):
+                    raise Violation('C17.faithful', f'Bus.to_{fmt}(no label encoder)', self._cls(src, e.model['mp']),
+                                    f'non-string labels {labs!r} were written without a label encoder and come back as {labs2!r}')
+            elif os.path.exists(path2):
+                os.remove(path2)
+            self.fault('export-without-label-encoder-' + ('accepted' if st == 'ok' else 'refused'))
+            for lab in labs:
+                e.model['t'].pop(lab, None)  # the attempt may have read any of the frames: recency unknown until addressed again
+            return 'noenc-' + st
         self.tick()
         res = self._access(e, op, f'Bus.to_{fmt}', set(labs), fn)
         if self._last_raised:
